@@ -114,7 +114,7 @@ namespace
             case COMPOUND:
             case WRAPPER:
                 for (size_t i = 0; i < d.subs.size(); ++i)
-                    if (!exactEqualityDomain(d.subs[i]) || (d.kind == COMPOUND && !(d.w[i] > 0)))
+                    if (!exactEqualityDomain(d.subs[i]) || (i < d.w.size() && !(d.w[i] > 0)))
                         return false;
                 return true;
             default:
